@@ -220,3 +220,51 @@ def check_seeded_vs_batched(res, db, lcs) -> int:
         sample={"kernel": lc.name, "field": key, "batched_inputs": sorted(batched.values()), "model_determined_skip": bool(skips)},
       )
   return n
+
+
+def check_per_world_scratch(res, db, lcs) -> int:
+  """R-BATCH.5: a scratch array that a kernel fills at the thread's world position (`tmp[worldid, ...]` or
+  `tmp[worldid % tmp.shape[0], ...]`) from per-world Data (`d.<field>[worldid, ...]`) holds one value per WORLD, not per
+  batch entry of some Model field: it must be allocated with first extent d.nworld (or the shape of a per-world Data
+  array). Sized by a Model field's batch extent it makes world w read the value computed from world (w mod extent)'s Data."""
+  from ..hostir import Temp, root_array
+  from ..report import Finding
+  from ..terms import T, show, subterms
+  from .world import array_key
+
+  n = 0
+  seen = set()
+  for lc in lcs:
+    reads_world = sorted({lc.field(a.root).path for a in lc.keval.accesses if not a.is_write and a.idx and a.idx[0] is T("tid", 0) and lc.field(a.root) is not None and lc.field(a.root).owner == "Data" and lc.field(a.root).is_array and lc.field(a.root).first == "nworld"})
+    if not reads_world:
+      continue
+    for a in lc.keval.accesses:
+      if not a.is_write or not a.idx:
+        continue
+      i0 = a.idx[0]
+      worldish = i0 is T("tid", 0) or (isinstance(i0, T) and i0.op == "bin" and i0.args[0] == "%" and i0.args[1] is T("tid", 0))
+      if not worldish:
+        continue
+      hv = lc.host(a.root)
+      r = root_array(hv) if hv is not None else None
+      if not isinstance(r, Temp) or r.key in seen:
+        continue
+      seen.add(r.key)
+      sh = r.shape.text if r.shape is not None else (r.src.text if r.src is not None else "")
+      if not sh:
+        continue
+      first = sh.strip("()[] ").split(",")[0]
+      n += 1
+      ok = "nworld" in first or sh.endswith(".shape") or r.how in ("clone", "zeros_like", "empty_like", "ones_like", "full_like")
+      res.ob(
+        ok,
+        f"{r.key}|per-world-scratch",
+        Finding(
+          "R-BATCH.5",
+          f"{r.key}|{lc.name}|scratch-not-sized-by-nworld",
+          f"scratch array {r.key} (shape `{sh}`) is filled at the thread's world position by {lc.name} from per-world Data ({', '.join(reads_world[:3])}), but its first extent is `{first}`, not d.nworld: worlds beyond that extent read (through a modulo) values computed from another world's Data",
+          a.loc,
+        ),
+        sample={"scratch": r.key, "shape": sh, "producer": lc.name, "per_world_inputs": reads_world[:3]} if n % 10 == 1 else None,
+      )
+  return n
